@@ -1,7 +1,8 @@
 """Submission specs shared by C12, C35 and C36: build a task of a given *kind* from a JSON spec,
 submit it into a cache root and summarise what came back in JSON.
 
-A spec is {"kind": K, "x": int, "hooks": None | "count" | "raise:<hook>", "audit": None|"PROV"|"ALL"}.
+A spec is {"kind": K, "x": int, "hooks": None | "count" | "raise:<hook>", "audit": None|"PROV"|"ALL",
+"msgdir": "explicit" (default; messages go to <case dir>/msgs) | "default" (no message_dir given)}.
 """
 from __future__ import annotations
 
@@ -26,6 +27,17 @@ KINDS = {
     "python_fail_cf": dict(task="FBoom", worker="cf", ok=False, tags=["P"]),
     "shell_cf":      dict(task="ShOk", worker="cf", ok=True, tags=["S"]),
     "shell_fail_cf": dict(task="ShFail", worker="cf", ok=False, tags=["S"]),
+    # python tasks with a set-of-files input that must be staged (copy, made siblings | hard-linked)
+    # before the body runs; `stage` says whether the VALUE lets that succeed:
+    #   ok     differently named files on the device of the cache root
+    #   names  two files with one name (in two directories) cannot be made siblings
+    #   mount  a file on another device cannot be hard-linked
+    # the body of a task whose staging fails never runs (tags: what a body WOULD log)
+    "python_files":       dict(task="FStage", worker="debug", ok=True, tags=["P"], stage="ok"),
+    "stagefail_names":    dict(task="FStage", worker="debug", ok=False, tags=["P"], stage="names"),
+    "stagefail_mount":    dict(task="FStage", worker="debug", ok=False, tags=["P"], stage="mount"),
+    "python_files_cf":    dict(task="FStage", worker="cf", ok=True, tags=["P"], stage="ok"),
+    "stagefail_names_cf": dict(task="FStage", worker="cf", ok=False, tags=["P"], stage="names"),
 }
 CF_PROCS = 2
 
@@ -67,6 +79,41 @@ class CaseDir:
         return out
 
 
+def stage_files(cd: CaseDir, stage: str):
+    """the files of an FStage task (created once per case directory; content depends on the path
+    only, so that equal specs give equal checksums within a case)"""
+    from vlib import tasks_faults as TF
+
+    base = cd.dir / "stage"
+    paths = {"ok": [base / "d1" / "x.txt", base / "d2" / "y.txt"],
+             "names": [base / "d1" / "x.txt", base / "d2" / "x.txt"]}.get(stage)
+    if paths is not None:
+        for p in paths:
+            if not p.exists():
+                p.parent.mkdir(parents=True, exist_ok=True)
+                p.write_text(f"{p.parent.name}/{p.name}")
+        return paths
+    if stage == "mount":
+        # an existing read-only file on another device than the cache root (never written to:
+        # a hard link across devices cannot be made)
+        cand = other_device_file(cd.cache)
+        if cand is None:
+            raise HarnessError("no file on another device than the cache root available")
+        return [cand]
+    raise HarnessError(f"unknown stage {stage}")
+
+
+def other_device_file(ref_dir):
+    """an existing file that lies on another device than `ref_dir`, or None"""
+    from vlib import tasks_faults as TF
+
+    dev = os.stat(ref_dir).st_dev
+    for cand in (TF.__file__, os.__file__, "/etc/hostname"):
+        if os.path.isfile(cand) and os.stat(cand).st_dev != dev:
+            return Path(cand)
+    return None
+
+
 def expected_outputs(spec) -> dict | None:
     k = KINDS[spec["kind"]]
     x = spec.get("x", 3)
@@ -77,6 +124,8 @@ def expected_outputs(spec) -> dict | None:
     if k["task"] == "ShOk":
         return {"stdout": f"out-{x + 1}\n", "stderr": "", "return_code": 0}
     if k["task"] == "FWf":
+        return {"out": x + 2}
+    if k["task"] == "FStage":
         return {"out": x + 2}
     raise HarnessError(f"no expected outputs for {spec}")
 
@@ -102,6 +151,12 @@ def build_task(spec, cd: CaseDir):
             raising = hooks.split(":", 1)[1] if hooks.startswith("raise:") else ""
             return TF.FWf(x=x, log=log, hooked=True, raising=raising)
         return TF.FWf(x=x, log=log)
+    if t == "FStage":
+        from fileformats.generic import File, SetOf
+
+        files = SetOf[File](stage_files(cd, k["stage"]))
+        cls = TF.FStageHardlink if k["stage"] == "mount" else TF.FStageSiblings
+        return cls(files=files, x=x, log=log)
     if t == "FWfFail":
         return TF.FWfFail(x=x, log=log)
     if t == "FWfFailFirst":
@@ -143,12 +198,12 @@ def submit(spec, cd: CaseDir, rerun=False) -> dict:
     if k["worker"] == "cf":
         kwargs["n_procs"] = CF_PROCS
     if spec.get("audit"):
-        cd.msgs.mkdir(exist_ok=True)
-        kwargs.update(
-            audit_flags=getattr(AuditFlag, spec["audit"]),
-            messengers=FileMessenger(),
-            messenger_args={"message_dir": str(cd.msgs)},
-        )
+        kwargs.update(audit_flags=getattr(AuditFlag, spec["audit"]), messengers=FileMessenger())
+        if spec.get("msgdir", "explicit") == "explicit":
+            cd.msgs.mkdir(exist_ok=True)
+            kwargs["messenger_args"] = {"message_dir": str(cd.msgs)}
+        # "default": no message_dir - the messenger writes to <cwd at send time>/messages; the
+        # process is inside the scratch directory cd.cwd from here on (see the chdir below)
     hooks = None
     hk = spec.get("hooks")
     if hk and not k["task"].startswith("FWf"):
